@@ -433,6 +433,19 @@ func TestRegression(t *testing.T) {
 	vp.CheckCase(t, "c12.net", NetCase{IP: []byte{1, 2, 3, 4}, Mask: []byte{}, NoMapped: true}, checkNet)
 }
 
+// TestConcurrent (variant "conc", -race): the same sequential oracles, with the
+// cases of a batch checked from 8 goroutines at once, so that hidden shared
+// state behind functions that look pure (pools, package-level buffers,
+// in-place edits) shows as a data race or a wrong result.
+func TestConcurrent(t *testing.T) {
+	if vp.Variant() != "conc" {
+		t.Skip("runs in the conc variant (-race)")
+	}
+	vp.RunConcurrent(t, addrProp, 150, 64, 8)
+	vp.RunConcurrent(t, netProp, 150, 64, 8)
+	vp.RunConcurrent(t, sortProp, 50, 32, 8)
+}
+
 func TestAddr(t *testing.T)   { vp.Run(t, addrProp) }
 func TestNet(t *testing.T)    { vp.Run(t, netProp) }
 func TestSort(t *testing.T)   { vp.Run(t, sortProp) }
